@@ -4,6 +4,8 @@ import json, os
 ROOT = os.path.dirname(os.path.dirname(os.path.abspath(__file__)))
 LN = "Trusted: Lean kernel (axioms propext, Classical.choice, Quot.sound only; audited with #print axioms on every run, leanchecker in the thorough tier); the hand-written model is tied to the Rust code by a differential correspondence check whose reach is measured in the evidence file; Rust std/rustc and third-party crates are trusted. "
 CLAIMS = {
+ "C01": dict(text="Lean 4 theorem HyE.C01.run_refines_spec: for every program, input text and number of steps the interpreter model (execute.rs/state.rs/area.rs over the model of num.rs) and the language definition over mathematical rationals (Option Rat, NaN = none) have written the same stdout/stderr, are at the same command, stand the same way (running / ended / exit 0|1 / encoding error) and hold corresponding stacks, selected stack, label table and return target; step_refines_spec is the one-command version; proved by a generic simulation over a number interface instantiated with the C06/C07 exactness theorems. Excluded: runs the definition declares unspecified (write of a value >= 2^32). Tied to the Rust code by comparing every step of the real execute_one (child processes, scripted stdin) with the model on generated programs.",
+             note=LN + "The command/area/label/IO-stack rules of the definition are the generic step instantiated with mathematical numbers; the independent part of the definition is the number semantics, comparison, rendering and input handling.", tech="Lean 4 proof (simulation between the interpreter over model numbers and over Rat, all programs/inputs/step counts) + step-by-step differential traces", ref="DESIGN.md §5 C01"),
  "C04": dict(text="Lean 4 theorem HyP.C04.parse_eq_spec: for every list of characters the model of parse.rs (three-state machine incl. max_pos pre-pass, cursors, line/column and raw bookkeeping) returns exactly what the independently written grammar defines; plus area_machine_eq_areaOf, prepass_iff, kinds_lt_six and the tie of the character tables re-extracted from the source on every run. Model tied to parse.rs by: all strings up to length 6 over a 15-symbol alphabet with one representative of every character class (12.2 M strings, chunk hashes), length<=4 over 22 symbols, 20 k random Unicode mixtures incl. area chains up to 4096 operators.",
              note=LN + "char::is_whitespace is modelled by the Unicode White_Space list.", tech="Lean 4 proof (model = grammar for all strings) + differential correspondence model vs parse.rs", ref="DESIGN.md §5 C04"),
  "C05": dict(text="Lean 4 theorems HyB.C05.*: on the model of big_number.rs (sign + little-endian base-2^32 limb vectors; add/sub/mult/div/less cores written loop for loop, producing the same vectors) add, sub, mul, truncating div, rem, neg, ==, ordering, gcd and construction from a machine integer return exactly the Int result in the canonical normal form, for operands with any number of limbs; limb bounds (no u32/u64 overflow, final casts truncate nothing), termination of gcd within its fuel. Tied to big_number.rs by differential runs (impl vs limb model vs Int spec) on boundary-biased operands of 1-6 limbs, all sign combinations, pure and in-place forms, normal-form probes.",
